@@ -313,7 +313,11 @@ func (f *Frame) contractCall(st *State, r *Term, target *ssa.Function, tmap TMap
 		if len(target.Blocks) > 0 {
 			eff = ctx.eng.effectsOf(target, f)
 		}
-		if ct.ModifiesSet || ct.Fresh {
+		if spareCapacity(ct) {
+			// the callee may write spare capacity anywhere: nothing is known about element arrays afterwards
+			f.frameCheckCall(st, r, calleeShort, nil, false, pos)
+			f.havocTop(st)
+		} else if ct.ModifiesSet || ct.Fresh {
 			locs := cf.evalModLocs(ct, pre)
 			f.frameCheckCall(st, r, calleeShort, locs, true, pos)
 			// Only the components named by the write frame change at pre-existing references. Memory
